@@ -21,8 +21,12 @@ def sample_cases(draw, tier="quick"):
     if kind == "par":
         d = draw(st.integers(1, 6))
         raw = draw(gen.mat(d, N))
-        geom = draw(st.sampled_from(["none", "cont1d", "discrete"]))
-        c = {"kind": kind, "raw": raw, "geom": geom}
+        geom = draw(st.sampled_from(["none", "cont1d", "discrete", "mapped_exp", "mapped_exp"]))
+        c = {"kind": kind, "raw": raw, "geom": geom,
+             # an integer-typed sample array (counts, integer draws)
+             "int_raw": draw(st.sampled_from([False, False, True]))}
+        if c["int_raw"]:
+            c["raw"] = [[float(round(2 * v)) for v in row] for row in raw]
     elif kind == "image_par":
         a, b = draw(st.integers(1, 3)), draw(st.integers(2, 3))
         raw = draw(gen.mat(a * b, N))
@@ -48,8 +52,10 @@ def build(c):
     raw = np.array(c["raw"], dtype=float)
     if c["kind"] == "par":
         d = raw.shape[0]
-        G = {"none": None, "cont1d": cuqi.geometry.Continuous1D(d), "discrete": cuqi.geometry.Discrete(d)}[c["geom"]]
-        return raw, cuqi.samples.Samples(raw.copy(), geometry=G), G
+        G = {"none": None, "cont1d": cuqi.geometry.Continuous1D(d), "discrete": cuqi.geometry.Discrete(d),
+             "mapped_exp": cuqi.geometry.MappedGeometry(cuqi.geometry.Continuous1D(d), map=lambda v: np.exp(0.3 * v), imap=lambda w: np.log(w) / 0.3)}[c["geom"]]
+        arr = raw.astype(int) if c.get("int_raw") else raw.copy()
+        return raw, cuqi.samples.Samples(arr, geometry=G), G
     if c["kind"] == "image_par":
         G = cuqi.geometry.Image2D(tuple(c["shape"]), order=c["order"])
         return raw, cuqi.samples.Samples(raw.copy(), geometry=G), G
@@ -58,7 +64,7 @@ def build(c):
 
 
 def tags_of(c):
-    return {"kind": c["kind"]}
+    return {"kind": c["kind"], "geom": c.get("geom", "image"), "int_raw": bool(c.get("int_raw"))}
 
 
 def run_burnthin(c, rec):
